@@ -79,3 +79,18 @@ Example C08_example :
      (x_connect_events x_connack_bytes ++ [EvNextService 100; EvService 3000 4096 0; EvNextService 3000; EvWriteComplete 3000; EvNextService 3001]))
   = [None; None; None; None; Some (Some 3000); None; Some (Some 4500); None; Some (Some 4500)].
 Proof. vm_compute. reflexivity. Qed.
+
+(* ---- run-level versions without the premise `s_st s = PendingConnack -> s_connack_to s <> None`: it is a conjunct of the engine well-formedness invariant (WFP, EngineProofs/WF*.v), so it holds in every state reachable by any event history (EngineProofs/SvcTimeWF.v); the C08_instance_* forms are about the concrete engine of Engine/Instance.v, with only ok_cfg and ok_event left ---- *)
+From GM Require Import EngineProofs.WFDefs EngineProofs.SvcTimeWF.
+
+Theorem C08_reported_time_is_min_run : forall (enc : Type) (enc_reset : version -> packet -> resolution -> outcome enc) (enc_call : enc -> N -> N -> outcome (bytes * enc)) (enc_done : enc -> bool) (dec : Type) (dec_init : dec) (dec_feed : version -> N -> dec -> bytes -> dec * list packet * outcome unit) (ores : Type) (ores_reset : ores -> N -> ores) (ores_resolve : ores -> option N -> bytes -> outcome (ores * resolution)) (ires : Type) (ires_reset : ires -> ires) (ires_resolve : ires -> option N -> bytes -> outcome (ires * bytes)) (v_out : option settings -> connect_opts -> resolution -> packet -> outcome unit) (v_in : option settings -> packet -> outcome unit) (cfg : config) (HC : comps_ok enc enc_reset enc_call dec dec_init dec_feed ores ores_reset ores_resolve ires ires_reset ires_resolve v_out v_in), ok_cfg cfg -> forall (o : ores) (i : ires) (h : list event) (now : N), @ores_inv enc enc_reset enc_call dec dec_init dec_feed ores ores_reset ores_resolve ires ires_reset ires_resolve v_out v_in HC o -> @ires_inv enc enc_reset enc_call dec dec_init dec_feed ores ores_reset ores_resolve ires ires_reset ires_resolve v_out v_in HC i -> @Forall event ok_event h -> exists r : option N, next_service_time enc dec ores ires cfg (@fst (state enc dec ores ires) (list output) (run enc enc_reset enc_call enc_done dec dec_init dec_feed ores ores_reset ores_resolve ires ires_reset ires_resolve v_out v_in cfg (init enc dec dec_init ores ires o i) h)) now = @Ok (option N) r /\ is_min r (candidates enc dec ores ires cfg (@fst (state enc dec ores ires) (list output) (run enc enc_reset enc_call enc_done dec dec_init dec_feed ores ores_reset ores_resolve ires ires_reset ires_resolve v_out v_in cfg (init enc dec dec_init ores ires o i) h)) now).
+Proof. exact @reported_time_is_min_run. Qed.
+
+Theorem C08_no_lost_wakeup_run : forall (enc : Type) (enc_reset : version -> packet -> resolution -> outcome enc) (enc_call : enc -> N -> N -> outcome (bytes * enc)) (enc_done : enc -> bool) (dec : Type) (dec_init : dec) (dec_feed : version -> N -> dec -> bytes -> dec * list packet * outcome unit) (ores : Type) (ores_reset : ores -> N -> ores) (ores_resolve : ores -> option N -> bytes -> outcome (ores * resolution)) (ires : Type) (ires_reset : ires -> ires) (ires_resolve : ires -> option N -> bytes -> outcome (ires * bytes)) (v_out : option settings -> connect_opts -> resolution -> packet -> outcome unit) (v_in : option settings -> packet -> outcome unit) (cfg : config) (HC : comps_ok enc enc_reset enc_call dec dec_init dec_feed ores ores_reset ores_resolve ires ires_reset ires_resolve v_out v_in), ok_cfg cfg -> forall (o : ores) (i : ires) (h : list event) (now : N), @ores_inv enc enc_reset enc_call dec dec_init dec_feed ores ores_reset ores_resolve ires ires_reset ires_resolve v_out v_in HC o -> @ires_inv enc enc_reset enc_call dec dec_init dec_feed ores ores_reset ores_resolve ires ires_reset ires_resolve v_out v_in HC i -> @Forall event ok_event h -> @s_st enc dec ores ires (@fst (state enc dec ores ires) (list output) (run enc enc_reset enc_call enc_done dec dec_init dec_feed ores ores_reset ores_resolve ires ires_reset ires_resolve v_out v_in cfg (init enc dec dec_init ores ires o i) h)) = PendingConnack \/ @s_st enc dec ores ires (@fst (state enc dec ores ires) (list output) (run enc enc_reset enc_call enc_done dec dec_init dec_feed ores ores_reset ores_resolve ires ires_reset ires_resolve v_out v_in cfg (init enc dec dec_init ores ires o i) h)) = Connected -> @s_pwc enc dec ores ires (@fst (state enc dec ores ires) (list output) (run enc enc_reset enc_call enc_done dec dec_init dec_feed ores ores_reset ores_resolve ires ires_reset ires_resolve v_out v_in cfg (init enc dec dec_init ores ires o i) h)) = false -> @s_cur enc dec ores ires (@fst (state enc dec ores ires) (list output) (run enc enc_reset enc_call enc_done dec dec_init dec_feed ores ores_reset ores_resolve ires ires_reset ires_resolve v_out v_in cfg (init enc dec dec_init ores ires o i) h)) <> @None N \/ @s_hq enc dec ores ires (@fst (state enc dec ores ires) (list output) (run enc enc_reset enc_call enc_done dec dec_init dec_feed ores ores_reset ores_resolve ires ires_reset ires_resolve v_out v_in cfg (init enc dec dec_init ores ires o i) h)) <> [] -> exists t : N, next_service_time enc dec ores ires cfg (@fst (state enc dec ores ires) (list output) (run enc enc_reset enc_call enc_done dec dec_init dec_feed ores ores_reset ores_resolve ires ires_reset ires_resolve v_out v_in cfg (init enc dec dec_init ores ires o i) h)) now = @Ok (option N) (@Some N t) /\ t <= now.
+Proof. exact @no_lost_wakeup_run. Qed.
+
+Theorem C08_instance_reported_time_is_min : forall (cfg : config) (k : resolver_kind) (h : list event) (now : N), ok_cfg cfg -> @Forall event ok_event h -> exists r : option N, next_service_time enc Framing.decoder ores Inbound.ires cfg (@fst istate (list output) (i_run cfg (i_init cfg k) h)) now = @Ok (option N) r /\ is_min r (candidates enc Framing.decoder ores Inbound.ires cfg (@fst istate (list output) (i_run cfg (i_init cfg k) h)) now).
+Proof. exact @instance_reported_time_is_min. Qed.
+
+Theorem C08_instance_no_lost_wakeup : forall (cfg : config) (k : resolver_kind) (h : list event) (now : N), ok_cfg cfg -> @Forall event ok_event h -> @s_st enc Framing.decoder ores Inbound.ires (@fst istate (list output) (i_run cfg (i_init cfg k) h)) = PendingConnack \/ @s_st enc Framing.decoder ores Inbound.ires (@fst istate (list output) (i_run cfg (i_init cfg k) h)) = Connected -> @s_pwc enc Framing.decoder ores Inbound.ires (@fst istate (list output) (i_run cfg (i_init cfg k) h)) = false -> @s_cur enc Framing.decoder ores Inbound.ires (@fst istate (list output) (i_run cfg (i_init cfg k) h)) <> @None N \/ @s_hq enc Framing.decoder ores Inbound.ires (@fst istate (list output) (i_run cfg (i_init cfg k) h)) <> [] -> exists t : N, next_service_time enc Framing.decoder ores Inbound.ires cfg (@fst istate (list output) (i_run cfg (i_init cfg k) h)) now = @Ok (option N) (@Some N t) /\ t <= now.
+Proof. exact @instance_no_lost_wakeup. Qed.
